@@ -151,5 +151,5 @@ def phases(tier):
   big = tier == 'thorough'
   return [
       {'name': 'constants', 'kind': 'hyp', 'strategy': lambda: cases(tier),
-       'run': check_case, 'examples': int((80000 if big else 4000) * k)},
+       'run': check_case, 'examples': int((240000 if big else 4000) * k)},
   ]
